@@ -6,6 +6,7 @@ from __future__ import annotations
 import ast
 
 from ..alias import Event, V, depth, loc_str, root
+from ..index import walk_no_nested as walk_no_nested_
 from ..index import ClassInfo, FuncInfo
 from ..report import Result
 from ..source import AnalysisError, src
@@ -275,6 +276,21 @@ def c3_fresh_fields(ctx, res: Result, fi: FuncInfo, rule="C3-copy-shares-no-cont
             res.bad(rule, f"{fi.qualname}:return", fi.site(), fi.qualname, f"returns a reference to existing state: {loc_str(l)}", construct=loc_str(l))
             continue
         flds = [(sel, val) for (loc, sel), (val, _s) in s.heap.items() if loc == l and sel not in ("*", "*k", "__copy_of__")]
+        link = s.heap.get((l, "__copy_of__"))
+        if link:
+            # a shallow object copy (copy.copy): every field that is not re-assigned afterwards is the original's
+            from ..alias import Heap
+            h = Heap(s.heap)
+            ci_ = fi.cls
+            explicit = {sel for sel, _v in flds}
+            if ci_ is not None and "__init__" in ci_.methods:
+                for a in walk_no_nested_(ci_.methods["__init__"].node):
+                    tgt = a.targets[0] if isinstance(a, ast.Assign) else (a.target if isinstance(a, ast.AnnAssign) else None)
+                    if isinstance(tgt, ast.Attribute) and isinstance(tgt.value, ast.Name) and tgt.value.id == "self" and isinstance(getattr(a, "value", None), (ast.List, ast.Dict, ast.ListComp, ast.DictComp)):
+                        from ..index import mangle
+                        fld = mangle(ci_.name, tgt.attr)
+                        if fld not in explicit:
+                            flds.append((fld, h.read(l, fld)))
         for sel, val in sorted(flds, key=lambda x: x[0]):
             n += 1
             shared = [x for x in val.locs if x[0] not in ("F", "D")]
